@@ -165,7 +165,12 @@ impl SmartCalc {
             let mut session = Session::new();
             session.set_language(language.to_string());
             session.set_text(rule_item.to_string());
-            function_items.push(Tokinizer::token_infos(&self.config, &session));
+            let tokens = Tokinizer::token_infos(&self.config, &session);
+
+            /* A pattern without tokens can never match */
+            if !tokens.is_empty() {
+                function_items.push(tokens);
+            }
         }
         
         let current_rules = match self.config.rule.get_mut(language) {
